@@ -2378,3 +2378,15 @@ mod tests {
         )
     }
 }
+
+/// Verification hooks (only with `--cfg libp2p_verif`): thin access to crate-private items.
+#[cfg(libp2p_verif)]
+pub mod verif {
+    /// A [`Stream`](crate::Stream) over an already negotiated substream that does not belong to
+    /// any connection (protocol-level drivers hand it to code that expects a `Stream`).
+    pub fn stream(
+        io: libp2p_core::Negotiated<libp2p_core::muxing::SubstreamBox>,
+    ) -> crate::Stream {
+        crate::Stream::new(io, crate::stream::ActiveStreamCounter::default())
+    }
+}
